@@ -124,3 +124,12 @@ class Viol(list):
 
     def count(self, oracle, n=1):
         self.evals[oracle] = self.evals.get(oracle, 0) + n
+
+
+def harvest(res, oracles, classes=None):
+    """Result of one check's run() restricted to some of its oracles (for a check of another property that
+    reuses the workload): violations and evaluation counts of those oracles only."""
+    viol = [v for v in res.get('viol', []) if v.get('oracle') in oracles]
+    evals = {k: n for k, n in res.get('evals', {}).items() if k in oracles}
+    return {'viol': viol, 'evals': evals, 'nontrivial': bool(res.get('nontrivial')) and bool(evals),
+            'classes': classes or [], 'summary': {'harvested': sorted(evals)}}
